@@ -215,8 +215,9 @@ def c10dl (a : List String) (obs : String) : String × String :=
     let (hs, e, b) := dialerUpgrade cfg nonce s
     let rest := if e.isNone then Bytes.toHex (b.buf ++ b.src.bytes) else "-"
     let brnil := if e.isSome || b.buf.isEmpty then 1 else 0
-    let model := s!"{dialErrStr e} proto={Bytes.toHex hs.protocol} exts={optsStr hs.extensions} req={Bytes.toHex req} rest={rest} nonce={get "nonce"} uri={get "uri"} uhost={get "uhost"} fresh={get "fresh"} brnil={brnil}"
-    (model, judgeDial cfg (hexOr urlS) resp (f.headD "") (get "proto") (get "exts") (get "req") (get "rest") (get "nonce") (get "fresh" == "1"))
+    let model := s!"{dialErrStr e} proto={Bytes.toHex hs.protocol} exts={optsStr hs.extensions} req={Bytes.toHex req} rest={rest} nonce={get "nonce"} uri={get "uri"} uhost={get "uhost"} fresh={get "fresh"} brnil={brnil} again=1"
+    let v := judgeDial cfg (hexOr urlS) resp (f.headD "") (get "proto") (get "exts") (get "req") (get "rest") (get "nonce") (get "fresh" == "1")
+    (model, if v == "ok" && get "again" != "1" then "bad:dialer-configuration-changed-by-a-handshake" else v)
   | _ => ("BADOP", "skip")
 
 /-- default port by scheme, independent of the model's hostport -/
